@@ -99,8 +99,9 @@ pub trait MapLike {
     fn len(&self) -> usize;
     /// false = `clear` not offered
     fn clear(&mut self) -> bool;
-    /// `None` = iteration not offered
-    fn entries(&self) -> Option<Vec<(u64, u64)>>;
+    /// `None` = iteration not offered; `Some(Err(msg))` = iterating panicked (the adapter catches the panic so that
+    /// it is reported under clause `iter`, not lumped with panics of the mutators under clause `panic`)
+    fn entries(&self) -> Option<Result<Vec<(u64, u64)>, String>>;
     /// a mutator that must not change the abstract map (`revoke_deleted`); `None` = not offered
     fn compact(&mut self) -> Option<Result<(), String>> {
         None
@@ -140,8 +141,8 @@ impl<S: BuildHasher> MapLike for ZiporaHashMap<u64, u64, S> {
         ZiporaHashMap::clear(self);
         true
     }
-    fn entries(&self) -> Option<Vec<(u64, u64)>> {
-        Some(self.iter().map(|(k, v)| (*k, *v)).collect())
+    fn entries(&self) -> Option<Result<Vec<(u64, u64)>, String>> {
+        Some(Ok(self.iter().map(|(k, v)| (*k, *v)).collect()))
     }
 }
 
@@ -169,7 +170,7 @@ impl<M: MapLike> MapLike for NoIter<M> {
     fn clear(&mut self) -> bool {
         self.0.clear()
     }
-    fn entries(&self) -> Option<Vec<(u64, u64)>> {
+    fn entries(&self) -> Option<Result<Vec<(u64, u64)>, String>> {
         None
     }
     fn compact(&mut self) -> Option<Result<(), String>> {
@@ -209,8 +210,8 @@ impl<L: LinkType> MapLike for GoldHashMap<u64, u64, L> {
         GoldHashMap::clear(self);
         true
     }
-    fn entries(&self) -> Option<Vec<(u64, u64)>> {
-        Some(self.iter().map(|(k, v)| (*k, *v)).collect())
+    fn entries(&self) -> Option<Result<Vec<(u64, u64)>, String>> {
+        Some(Ok(self.iter().map(|(k, v)| (*k, *v)).collect()))
     }
     fn compact(&mut self) -> Option<Result<(), String>> {
         Some(self.revoke_deleted().map_err(|e| e.to_string()))
@@ -245,7 +246,7 @@ impl MapLike for GoldHashIdx<u64, u64> {
     fn clear(&mut self) -> bool {
         false
     }
-    fn entries(&self) -> Option<Vec<(u64, u64)>> {
+    fn entries(&self) -> Option<Result<Vec<(u64, u64)>, String>> {
         None
     }
 }
@@ -279,8 +280,8 @@ impl MapLike for SmallMap<u64, u64> {
         SmallMap::clear(self);
         true
     }
-    fn entries(&self) -> Option<Vec<(u64, u64)>> {
-        Some(self.iter().map(|(k, v)| (*k, *v)).collect())
+    fn entries(&self) -> Option<Result<Vec<(u64, u64)>, String>> {
+        Some(zverif::util::catch(|| self.iter().map(|(k, v)| (*k, *v)).collect::<Vec<_>>()).map_err(|f| f.detail))
     }
 }
 
@@ -309,7 +310,7 @@ impl MapLike for EasyHashMap<u64, u64> {
         EasyHashMap::clear(self);
         true
     }
-    fn entries(&self) -> Option<Vec<(u64, u64)>> {
+    fn entries(&self) -> Option<Result<Vec<(u64, u64)>, String>> {
         None
     }
     fn insert_reports_previous(&self) -> bool {
@@ -358,14 +359,14 @@ impl MapLike for HashStrMap<u64> {
         HashStrMap::clear(self);
         true
     }
-    fn entries(&self) -> Option<Vec<(u64, u64)>> {
+    fn entries(&self) -> Option<Result<Vec<(u64, u64)>, String>> {
         // map the string back to the key index through the probe universe
         let mut out = Vec::new();
         for (s, v) in self.iter() {
             let k = (0..64u64).find(|k| &str_key(*k) == s).unwrap_or(u64::MAX);
             out.push((k, *v));
         }
-        Some(out)
+        Some(Ok(out))
     }
 }
 
@@ -556,7 +557,8 @@ impl SeqSpec for MapSpec {
         }
         let l = st.map.len();
         check!(l == st.model.len(), "len", "len() = {l}, model says {}", st.model.len());
-        if let Some(mut e) = st.map.entries() {
+        if let Some(r) = st.map.entries() {
+            let mut e = r.map_err(|msg| Fail::new("iter", format!("iter() {msg}")))?;
             e.sort();
             let m: Vec<(u64, u64)> = st.model.iter().map(|(k, v)| (*k, *v)).collect();
             check!(e == m, "iter", "iter() yields {:?}, model says {:?}", e, m);
@@ -674,7 +676,7 @@ fn main() {
         reg.add(zipora_spec("ZiporaHashMap[default]/FixedSip/prefill40", dflt, FixedSip, false, p(&[0, 1, 100], (10..50).collect(), 3, 4)));
 
         // ---- the same storage without the iter() observer: histories with tombstones
-        reg.add(zipora_spec("ZiporaHashMap[default,noiter]/Const(7)", dflt, ConstBuild(7), true, p(k2, vec![], 5, 7)));
+        reg.add(zipora_spec("ZiporaHashMap[default,noiter]/Const(7)", dflt, ConstBuild(7), true, p(k2, vec![], 5, 8)));
         // hashes 5 and 21: same home slot (5) in a 16-slot table, different stored hash values
         reg.add(zipora_spec("ZiporaHashMap[default,noiter]/Table(5,21)", dflt, TableBuild(vec![5, 21]), true, p(k2, vec![], 5, 7)));
         // a full 16-slot table (prefill 14 + 2): removal/re-insertion at 100% load and across the resize to 32
@@ -697,7 +699,7 @@ fn main() {
         let g4 = gold_colliding(0, 5, 0, 4);
         let g3: Vec<u64> = g4[..3].to_vec();
         let gpre: Vec<u64> = gold_colliding(0, 5, 1000, 6); // six more keys in the same residue class
-        reg.add(gold_spec::<u32>("GoldHashMap[u32,cap5]", || gold_cfg(1, false, false, true), p(&g4, vec![], 4, 5)));
+        reg.add(gold_spec::<u32>("GoldHashMap[u32,cap5]", || gold_cfg(1, false, false, true), p(&g4, vec![], 4, 6)));
         reg.add(gold_spec::<u64>("GoldHashMap[u64,cap5]", || gold_cfg(1, false, false, true), p(&g4, vec![], 4, 5)));
         reg.add(gold_spec::<u32>("GoldHashMap[u32,cap5,hash_cache]", || gold_cfg(1, true, false, true), p(&g4, vec![], 4, 5)));
         reg.add(gold_spec::<u32>("GoldHashMap[u32,cap5,auto_gc]", || gold_cfg(1, false, true, true), p(&g4, vec![], 4, 5)));
@@ -715,7 +717,7 @@ fn main() {
             s.note = "hash seed is per process (AHasher::default()): each shard explores the space under its own hash function";
             Seq(s)
         };
-        reg.add(idx("GoldHashIdx/new", Box::new(|| Ok(Box::new(GoldHashIdx::<u64, u64>::new()) as Box<dyn MapLike>)), p(k4, vec![], 4, 5)));
+        reg.add(idx("GoldHashIdx/new", Box::new(|| Ok(Box::new(GoldHashIdx::<u64, u64>::new()) as Box<dyn MapLike>)), p(k4, vec![], 4, 6)));
         // 11 of 16 slots used: long clusters, and the resize to 32 slots happens at the 13th key
         reg.add(idx("GoldHashIdx/prefill11", Box::new(|| Ok(Box::new(GoldHashIdx::<u64, u64>::new()) as Box<dyn MapLike>)), p(&[0, 1, 10], (10..21).collect(), 4, 5)));
         reg.add(idx(
@@ -729,7 +731,7 @@ fn main() {
 
         // ---- SmallMap: inline arrays up to SMALL_MAP_THRESHOLD = 8, promoted to ZiporaHashMap at the 9th key
         let small = |label: &str, p: P| Seq(spec(label, Box::new(|| Ok(Box::new(SmallMap::<u64, u64>::new()) as Box<dyn MapLike>)), p));
-        reg.add(small("SmallMap/new", p(k4, vec![], 4, 5)));
+        reg.add(small("SmallMap/new", p(k4, vec![], 4, 6)));
         reg.add(small("SmallMap/prefill5", p(k3, (10..15).collect(), 4, 5))); // 5..8 entries: the partially unrolled search paths
         reg.add(small("SmallMap/prefill7", p(k2, (10..17).collect(), 4, 5))); // 7, 8 (full inline), 9 (promoted)
         reg.add(small("SmallMap/prefill8", p(&[0, 10], (10..18).collect(), 4, 5))); // key 10 is present: replace at the threshold must not promote
